@@ -22,13 +22,14 @@ CONSTANTS
   CPlans = {2}
   TUnits = {"s"}
   KRegs <- KRegs6
-  Outs <- Outs_one
+  Outs <- Outs_q
   Modes = {"inline", "named", "subs"}
   EqTemplates = {}
   EqWrongs = {}
   CallKinds <- Calls_none
   MaxCalls = 0
   Laws = {"arrhenius", "eyring", "alt"}
+  TSources = {"param", "subs", "ramp"}
 INVARIANT RegistryIndependent
 INVARIANT WrittenIsPhysical
 INVARIANT RefusedOnlyIfWrongDimension
